@@ -738,3 +738,31 @@ Proof.
   apply (canon_prim_of_payload LTlv EDefault PDateTime tag (VDate y mo d h mi s) bs ctx eq_refl); [cbn [len_fits]; lia|exact Ht| |reflexivity|exact I].
   split; cbn [prim_enc prim_dec]; [exact He|exact Hdec].
 Qed.
+
+(* ---------- the receipt-number field of partial reversals: every receipt number 0..9999 and the 0xFFFF sentinel ---------- *)
+
+Lemma class_receipt_no tag n ctx : tag_ok_b tag = true -> n < 10000 \/ n = 65535 ->
+  exists g, canon (LFixed 2) EReceiptNo (TPrim (PInt 8)) tag (VInt n) ctx = Some g.
+Proof.
+  intros Ht Hn. cbn [canon]. unfold canon_prim. cbn [bytes_empty prim_enc].
+  destruct Hn as [Hn| ->].
+  2:{ change (65535 =? 65535) with true. cbn iota. unfold framed_enc. cbn [len_ser blen length]. cbn [N.of_nat]. 
+      change (N.of_nat 2 <=? 2) with true. cbn [bind]. rewrite Ht. cbn [andb delimiting len_fits].
+      change (blen [255; 255]) with 2. rewrite N.eqb_refl. cbn [andb]. cbn [prim_dec]. change ((255 =? 255) && (255 =? 255)) with true. cbn iota.
+      cbn [ok_is flat_eqb]. rewrite N.eqb_refl. cbn [list_eqb andb orb]. eexists. reflexivity. }
+  destruct (n =? 65535) eqn:E; [lia|].
+  destruct (bcd_roundtrip 8 n) as [pl [He [Hdig [_ [_ [_ Hdec]]]]]]; [cbn; lia|cbn; lia|]. rewrite He.
+  pose proof (bcd_enc_len n 2 pl ltac:(cbn; lia) ltac:(cbn; lia) He) as Hl.
+  unfold framed_enc. cbn [len_ser]. destruct (blen pl <=? 2) eqn:E2; [|lia]. cbn [bind]. rewrite Ht. cbn [andb].
+  (* the padded payload is two digit bytes: never FF FF, and it reads back as n *)
+  assert (P : ok_is (prim_dec EReceiptNo (PInt 8) (zeros (2 - blen pl) ++ pl)) (VInt n) [] = true).
+  { assert (D : bcd_dec 8 (zeros (2 - blen pl) ++ pl) = Ok (n, [])) by (rewrite bcd_dec_padded; exact Hdec).
+    assert (L2 : blen (zeros (2 - blen pl) ++ pl) = 2) by (rewrite blen_app, blen_zeros; lia).
+    assert (Dg : Forall digit_byte (zeros (2 - blen pl) ++ pl)).
+    { apply Forall_app. split; [|exact Hdig]. unfold zeros. apply Forall_forall. intros x Hx. apply repeat_spec in Hx. subst x. unfold digit_byte. cbn. lia. }
+    destruct (zeros (2 - blen pl) ++ pl) as [|b0 [|b1 [|b2 r]]] eqn:Ez; unfold blen in L2; cbn [length] in L2; try lia.
+    cbn [prim_dec]. inversion Dg as [|? ? D0 Dg1]; subst. inversion Dg1 as [|? ? D1 _]; subst.
+    assert (N0 : (b0 =? 255) && (b1 =? 255) = false) by (unfold digit_byte in D0, D1; lia). rewrite N0, D. cbn [bind ok_is flat_eqb].
+    rewrite N.eqb_refl. reflexivity. }
+  cbn [andb]. rewrite P. rewrite !Bool.orb_true_r. cbn [orb]. eexists. reflexivity.
+Qed.
